@@ -333,7 +333,7 @@ func (s *clientSocket) sendConnectPacket(authData any) {
 				m[k] = v
 			}
 		}
-		v = m
+		v = &m
 	} else if authData != nil {
 		v = &authData
 	}
